@@ -178,6 +178,7 @@ Glu_alloc(
 #pragma omp critical (ULOCK)
 #endif	
 	{
+	    SLU_VERIF_EV(SLU_VEV_ALLOC_ENTER, pnum, mem_type, jcol, num, 0);
 	    nextu = Glu->nextu;
 	    new_next = nextu + num;
 	    if ( new_next > Glu->nzumax ) {
@@ -226,6 +227,7 @@ Glu_alloc(
 #pragma omp critical (LLOCK)
 #endif	
 	{
+	  SLU_VERIF_EV(SLU_VEV_ALLOC_ENTER, pnum, LSUB, jcol, num, 0);
 	  nextl = Glu->nextl;
 	  new_next = nextl + num;
 	  if ( new_next > Glu->nzlmax ) {
